@@ -458,8 +458,17 @@ func (w *World) applyFull(n *Node, b *Block) {
 			n.ops = append(n.ops, nodeOp{kind: "verifyrem", block: b.ID})
 		}
 	}
-	g := w.fp.begin("Modify", dels, proof.Targets, proof.Proof, leaves)
-	err, _ := guard(func() error { return n.acc.Modify(leaves, dels, proof) })
+	mDels := dels
+	if n.cfg.Kind == "mapfull" && len(dels) > 1 && r.Pct(15) {
+		// the map forest's Modify takes the deleted hashes and the proof's targets in
+		// independent orders ("do not have to be in the same order"): the hashes
+		// shuffled on their own, the (already verified) proof as it is
+		mDels = padH(append([]H(nil), dels...))
+		r.Shuffle(len(mDels), func(i, j int) { mDels[i], mDels[j] = mDels[j], mDels[i] })
+		w.stats.Reach["modify_hashes_and_targets_in_different_orders"]++
+	}
+	g := w.fp.begin("Modify", mDels, proof.Targets, proof.Proof, leaves)
+	err, _ := guard(func() error { return n.acc.Modify(leaves, mDels, proof) })
 	g.end()
 	if err != nil {
 		w.blame(n, "apply-err", fmt.Sprintf("Modify failed on an honest block %d: %v", b.ID, err))
